@@ -6,6 +6,7 @@ package main
 // projected back to value tags per role.
 
 import (
+	"bufio"
 	"bytes"
 	"compress/gzip"
 	"context"
@@ -13,7 +14,10 @@ import (
 	"encoding/json"
 	"fmt"
 	"io"
+	"log"
 	"math"
+	"net"
+	"net/http"
 	"net/http/httptest"
 	"net/url"
 	"runtime"
@@ -48,6 +52,8 @@ type TcAbs struct {
 	Table    bool   `json:"table"`    // draw values from the boundary tables
 	Stream   bool   `json:"stream"`   // first message of a client stream instead of a unary call
 	ZeroPath bool   `json:"zeropath"` // p1 carries the zero value of its kind (0, false, enum 0)
+	CompSub  bool   `json:"compsub"`  // a query key names a SUB-field of the path-bound field (wrapper .value, Timestamp/Duration .seconds)
+	Ws       bool   `json:"ws"`       // the request is a WebSocket session: rule kind WEBSOCKET, the body is the first text frame
 	Framing  string `json:"framing"`  // how the request body is delimited: "" sized | unsized (HTTP/2, no content-length) | chunked (HTTP/1.1)
 }
 
@@ -518,6 +524,9 @@ func runTcCase(c TcAbs, seed int64) TcEv {
 	} else {
 		kind = []string{"POST", "PUT", "PATCH"}[r.pick(3)]
 	}
+	if c.Ws {
+		kind = "WEBSOCKET"
+	}
 	rule := httpRule(kind, tmpl)
 	switch c.Body {
 	case "*":
@@ -576,6 +585,22 @@ func runTcCase(c TcAbs, seed int64) TcEv {
 	if c.CompQ {
 		addQ("p1", comp.text)
 	}
+	if c.CompSub {
+		sub, text := "", comp.text
+		switch k := role["p1"].kind; {
+		case strings.HasPrefix(k, "w"):
+			sub = "value"
+		case k == "ts" || k == "du":
+			sub, text = "seconds", "99"
+		}
+		if sub != "" {
+			key := keyFor(role["p1"].path, c.Spell) + "." + sub
+			qkeys = append(qkeys, key)
+			q.Add(key, text)
+		} else {
+			ev.C.CompSub = false
+		}
+	}
 	if c.CompB {
 		setLeaf(bodyMsg, role["p1"].path, comp, false)
 	}
@@ -620,7 +645,7 @@ func runTcCase(c TcAbs, seed int64) TcEv {
 	}
 	ev.URL = kind + " " + path + "?" + rawQuery
 	// the mux
-	svc := ServiceSpec{Name: "Tc", Methods: []MethodSpec{{Name: "Call", Rule: rule, ClientStream: c.Stream}}}
+	svc := ServiceSpec{Name: "Tc", Methods: []MethodSpec{{Name: "Call", Rule: rule, ClientStream: c.Stream || c.Ws, ServerStream: c.Ws}}}
 	files, sds, err := BuildFiles([]ServiceSpec{svc})
 	if err != nil {
 		ev.Crash = "setup: " + err.Error()
@@ -671,14 +696,62 @@ func runTcCase(c TcAbs, seed int64) TcEv {
 		}
 	}
 	w := httptest.NewRecorder()
-	func() {
-		defer func() {
-			if p := recover(); p != nil {
-				ev.Crash = fmt.Sprintf("panic: %v", p)
+	if c.Ws {
+		// one text frame with the JSON body over a real socket; the handler's first message is what counts
+		done := make(chan string, 1)
+		srv := httptest.NewUnstartedServer(http.HandlerFunc(func(rw http.ResponseWriter, rq *http.Request) {
+			defer func() {
+				if p := recover(); p != nil {
+					done <- fmt.Sprintf("panic: %v", p)
+					return
+				}
+				done <- ""
+			}()
+			mux.ServeHTTP(rw, rq)
+		}))
+		srv.Config.ErrorLog = log.New(io.Discard, "", 0)
+		srv.Start()
+		conn, err := net.DialTimeout("tcp", srv.Listener.Addr().String(), 5*time.Second)
+		if err != nil {
+			srv.Close()
+			ev.Crash = "infra: dial: " + err.Error()
+			return ev
+		}
+		conn.SetDeadline(time.Now().Add(8 * time.Second))
+		target := (&url.URL{Path: path, RawQuery: rawQuery}).RequestURI()
+		fmt.Fprintf(conn, "GET %s HTTP/1.1\r\nHost: verif.test\r\nUpgrade: websocket\r\nConnection: Upgrade\r\nSec-WebSocket-Key: dGhlIHNhbXBsZSBub25jZQ==\r\nSec-WebSocket-Version: 13\r\n\r\n", target)
+		br := bufio.NewReader(conn)
+		if res, err := http.ReadResponse(br, nil); err == nil {
+			w.Code = res.StatusCode
+			if res.StatusCode == 101 {
+				w.Code = 200
+				conn.Write(wsFrame(1, true, true, 0, body))
+				conn.Write(wsFrame(8, true, true, 0, []byte{0x03, 0xe8}))
+				io.Copy(io.Discard, br)
+			} else {
+				b, _ := io.ReadAll(io.LimitReader(res.Body, 4096))
+				w.Body.Write(b)
 			}
+		} else {
+			w.Code = 0
+		}
+		conn.Close()
+		select {
+		case ev.Crash = <-done:
+		case <-time.After(10 * time.Second):
+			ev.Crash = "hang"
+		}
+		srv.Close()
+	} else {
+		func() {
+			defer func() {
+				if p := recover(); p != nil {
+					ev.Crash = fmt.Sprintf("panic: %v", p)
+				}
+			}()
+			mux.ServeHTTP(w, req)
 		}()
-		mux.ServeHTTP(w, req)
-	}()
+	}
 	ev.Status = w.Code
 	if ev.Crash != "" {
 		return ev
